@@ -2,6 +2,7 @@ import Ruint.Lemmas.FacadeC
 import Ruint.Lemmas.GenBinOps
 import Ruint.Gen.WordsFacade
 import Ruint.Gen.WordsBitsFwd
+import Ruint.Gen.WordsTraitMisc
 import Ruint.Gen.WordsConv
 import Ruint.Gen.WordsConv2
 
@@ -334,5 +335,21 @@ theorem gen_bits_forwarders :
     first
       | rfl
       | (simp only [Ruint.Gen.bits_try_from_be_slice, Ruint.Gen.bits_try_from_le_slice, Ruint.Gen.bits_from_limbs]; split <;> simp_all)
+
+/-! ## The one-line trait impls of the core as regenerated from the source (G)
+
+`Gen/WordsTraitMisc.lean`: `Neg` and `Not` (by value and by reference), `PartialOrd::partial_cmp`, `Default::default`,
+`as_limbs`, `into_limbs`. Each is the inherent method / constant it is documented to be. -/
+
+theorem gen_trait_misc_shapes (f bits L : ℕ) (a b : List ℕ) :
+    Ruint.Gen.op_neg_val f bits L a = Ruint.Gen.uint_wrapping_neg f bits L a
+    ∧ Ruint.Gen.op_neg_ref f bits L a = Ruint.Gen.uint_wrapping_neg f bits L a
+    ∧ Ruint.Gen.op_not_val f bits L a = Ruint.Gen.uint_not f bits L a
+    ∧ Ruint.Gen.op_not_ref f bits L a = Ruint.Gen.uint_not f bits L a
+    ∧ Ruint.Gen.uint_partial_cmp f bits L a b = some (Ruint.Gen.uint_cmp f bits L a b)
+    ∧ Ruint.Gen.uint_default bits L = List.replicate L 0
+    ∧ Ruint.Gen.uint_as_limbs bits L a = a
+    ∧ Ruint.Gen.uint_into_limbs bits L a = a :=
+  ⟨rfl, rfl, rfl, rfl, rfl, rfl, rfl, rfl⟩
 
 end Ruint.C20
